@@ -304,6 +304,9 @@ struct BodyVisitor<'c, 'a> {
     let_as_done: Vec<bool>,
     let_as_hits: Vec<usize>,
     map_fold_done: bool,
+    collect_no: usize,
+    map_collect_done: Vec<bool>,
+    fold_loop_done: bool,
     fn_path: String,
 }
 
@@ -375,6 +378,15 @@ impl<'c, 'a, 'ast> Visit<'ast> for BodyVisitor<'c, 'a> {
                 continue;
             }
             let (s, e) = self.cx.f.range(st.span());
+            // R23 (opt-in `//@ hoist-items`): a `struct` / `enum` / `impl` item statement is deleted from the body; the template extracts it at module
+            // level (`//@item <file> :: impl T :: fn f :: struct S`, `//@impl` + `//@in-fn`). Verus does not support item statements inside a fn body;
+            // item declarations are not executed and hoisting only widens their scope.
+            if self.d.hoist_items {
+                if let Stmt::Item(Item::Struct(_) | Item::Enum(_) | Item::Impl(_)) = st {
+                    self.cx.edit(s, e, "/* R23: nested item hoisted to module level (extracted separately) */".to_string(), 0, "R23-hoist-items");
+                    continue;
+                }
+            }
             // R2 at statement level
             let attrs: &[Attribute] = match st {
                 Stmt::Local(l) => &l.attrs,
@@ -710,7 +722,7 @@ impl<'c, 'a, 'ast> Visit<'ast> for BodyVisitor<'c, 'a> {
                         let (us_s, us_e) = self.cx.f.range(us.span());
                         let t = norm_ws(&self.cx.f.text[us_s..us_e]);
                         if t.starts_with("use core::arch::") {
-                            self.cx.edit(us_s, us_e, String::new(), 0, "R8-arch-use");
+                            r8_arch_use(self.cx, us_s, us_e, &t);
                         } else {
                             die(&format!("R8: unsupported `use` inside unsafe block at {}:{}", self.cx.f.rel, self.cx.f.line_of(us_s)));
                         }
@@ -731,6 +743,109 @@ impl<'c, 'a, 'ast> Visit<'ast> for BodyVisitor<'c, 'a> {
                     };
                     self.cx.edit(s, e, t, 0, "R17-bytestr");
                 }
+            }
+            Expr::MethodCall(mc)
+                if !self.d.map_collect.is_empty()
+                    && mc.method == "collect"
+                    && mc.args.is_empty()
+                    && mc.turbofish.is_none()
+                    && matches!(&*mc.receiver, Expr::MethodCall(m) if m.method == "map" && m.args.len() == 1 && m.turbofish.is_none()) =>
+            {
+                // R24 (opt-in `//@ map-collect-loop <k>`): see directives.rs::MapCollect. A modelling assumption on `core` / `alloc` (Map::next =
+                // inner.next().map(f); `collect::<Vec<_>>()` pushes every item in order), logged; BODY is the source text and is visited as usual.
+                self.collect_no += 1;
+                let n = self.collect_no;
+                let k = match self.d.map_collect.iter().position(|x| x.nth == n) {
+                    Some(k) => k,
+                    None => {
+                        syn::visit::visit_expr(self, e);
+                        return;
+                    }
+                };
+                let md = &self.d.map_collect[k];
+                let m = match &*mc.receiver { Expr::MethodCall(m) => m, _ => unreachable!() };
+                let (s, e2) = self.cx.f.range(mc.span());
+                let recv = self.cx.f.slice(m.receiver.span()).to_string();
+                let mut parts: Vec<Vec<String>> = vec![vec![]];
+                for ln in &md.lines {
+                    if ln.trim() == "---" { parts.push(vec![]); } else { parts.last_mut().unwrap().push(ln.clone()); }
+                }
+                while parts.len() < 5 { parts.push(vec![]); }
+                let ty = md.ty.clone().unwrap_or("Vec<_>".to_string());
+                let it = match &md.iter_name { Some(nm) => format!("{}: ", nm), None => String::new() };
+                let (srcdecl, loopsrc) = match &md.src {
+                    Some(nm) => (format!("let {} = {};\n", nm, recv), nm.clone()),
+                    None => (String::new(), recv.clone()),
+                };
+                let head = format!("{{ let mut vx_out: {} = Vec::new();\n        {}{}\n        for ", ty, srcdecl, parts[0].join("\n"));
+                match &m.args[0] {
+                    Expr::Closure(cl) if cl.inputs.len() == 1 => {
+                        let pat = match &cl.inputs[0] {
+                            syn::Pat::Type(pt) => self.cx.f.slice(pt.pat.span()).to_string(),
+                            other => self.cx.f.slice(other.span()).to_string(),
+                        };
+                        let (bs, be) = self.cx.f.range(cl.body.span());
+                        self.cx.edit(s, bs, format!("{}{} in {}{}\n{}\n        {{ let vx_item = ", head, pat, it, loopsrc, parts[1].join("\n")), 0, "R24-map-collect-loop");
+                        self.cx.edit(be, e2, format!(";\n{}\n            vx_out.push(vx_item);\n{}\n        }}\n{}\n        vx_out }}", parts[2].join("\n"), parts[3].join("\n"), parts[4].join("\n")), -300000, "R24-map-collect-loop");
+                        self.visit_expr(&cl.body);
+                    }
+                    Expr::Path(p) => {
+                        let f = self.cx.f.slice(p.span()).to_string();
+                        self.cx.edit(s, e2, format!("{}vx_x in {}{}\n{}\n        {{ let vx_item = {}(vx_x);\n{}\n            vx_out.push(vx_item);\n{}\n        }}\n{}\n        vx_out }}", head, it, loopsrc, parts[1].join("\n"), f, parts[2].join("\n"), parts[3].join("\n"), parts[4].join("\n")), 0, "R24-map-collect-loop");
+                    }
+                    _ => die(&format!("map-collect-loop #{} in {}: the argument of `map` is neither a one-parameter closure nor a path", n, self.fn_path)),
+                }
+                self.map_collect_done[k] = true;
+            }
+            Expr::MethodCall(mc) if self.d.fold_loop.is_some() && !self.fold_loop_done && mc.method == "fold" && mc.args.len() == 2 && mc.turbofish.is_none() => {
+                // R25 (opt-in `//@ fold-loop`): see directives.rs::FoldLoop — the definition of `Iterator::fold` in core, logged; E is the source text.
+                let fl = self.d.fold_loop.as_ref().unwrap();
+                let cl = match &mc.args[1] { Expr::Closure(c) if c.inputs.len() == 2 => c, _ => die(&format!("fold-loop in {}: second argument is not a two-parameter closure", self.fn_path)) };
+                let id = |p: &syn::Pat| -> String { match p { syn::Pat::Ident(pi) if pi.by_ref.is_none() && pi.subpat.is_none() => pi.ident.to_string(), _ => die("fold-loop: closure parameters must be identifiers") } };
+                let a = id(&cl.inputs[0]);
+                let x = id(&cl.inputs[1]);
+                let (s, e2) = self.cx.f.range(mc.span());
+                let recv = self.cx.f.slice(mc.receiver.span()).to_string();
+                let init = self.cx.f.slice(mc.args[0].span()).to_string();
+                let mut parts: Vec<Vec<String>> = vec![vec![]];
+                for ln in &fl.lines {
+                    if ln.trim() == "---" { parts.push(vec![]); } else { parts.last_mut().unwrap().push(ln.clone()); }
+                }
+                while parts.len() < 4 { parts.push(vec![]); }
+                let it = match &fl.iter_name { Some(nm) => format!("{}: ", nm), None => String::new() };
+                let (srcdecl, loopsrc) = match &fl.src {
+                    Some(nm) => (format!("let {} = {};\n", nm, recv), nm.clone()),
+                    None => (String::new(), recv.clone()),
+                };
+                let (bs, be) = self.cx.f.range(cl.body.span());
+                self.cx.edit(s, bs, format!("{{ let mut vx_acc = {};\n        {}{}\n        for {} in {}{}\n{}\n        {{ let {} = vx_acc;\n{}\n            vx_acc = ", init, srcdecl, parts[0].join("\n"), x, it, loopsrc, parts[1].join("\n"), a, parts[2].join("\n")), 0, "R25-fold-loop");
+                self.cx.edit(be, e2, format!(";\n{}\n        }}\n        vx_acc }}", parts[3].join("\n")), -300000, "R25-fold-loop");
+                self.visit_expr(&cl.body);
+                self.fold_loop_done = true;
+            }
+            Expr::MethodCall(mc)
+                if !self.d.eta_ctor.is_empty()
+                    && mc.method == "map"
+                    && mc.args.len() == 1
+                    && matches!(&mc.args[0], Expr::Path(p) if p.path.segments.len() == 1 && self.d.eta_ctor.contains(&p.path.segments[0].ident.to_string())) =>
+            {
+                // R26 (opt-in `//@ eta-ctor <Name>`): `x.map(Name)` -> `x.map(|vx_c| Name(vx_c))` for a tuple-struct constructor `Name`: the same
+                // function by the definition of a tuple-struct constructor; Verus rejects "a datatype constructor as a function value".
+                let (as_, ae) = self.cx.f.range(mc.args[0].span());
+                let nm = self.cx.f.slice(mc.args[0].span()).to_string();
+                self.cx.edit(as_, ae, format!("|vx_c| {}(vx_c)", nm), 0, "R26-eta-ctor");
+                self.visit_expr(&mc.receiver);
+            }
+            Expr::Reference(r)
+                if self.d.full_range_mut
+                    && r.mutability.is_some()
+                    && matches!(&*r.expr, Expr::Index(ix) if matches!(&*ix.index, Expr::Range(rg) if rg.start.is_none() && rg.end.is_none() && matches!(rg.limits, syn::RangeLimits::HalfOpen(_)))) =>
+            {
+                // R27 (opt-in `//@ full-range-mut-as-slice`): `&mut v[..]` -> `v.as_mut_slice()` — see directives.rs
+                let ix = match &*r.expr { Expr::Index(ix) => ix, _ => unreachable!() };
+                let (s, e2) = self.cx.f.range(r.span());
+                let base = self.cx.f.slice(ix.expr.span()).to_string();
+                self.cx.edit(s, e2, format!("{}.as_mut_slice()", base), 0, "R27-full-range-mut");
             }
             Expr::Call(c) if !self.d.call_as.is_empty() && matches!(&*c.func, Expr::Path(_)) => {
                 // R16 (path-call form, opt-in `//@ call-as <callee> <fn>`): the callee path is replaced by a shim of the template whose
@@ -820,8 +935,42 @@ fn fold_const(cx: &mut Ctx, c: &syn::ItemConst) {
     }
 }
 
+/// R8 helper (added for unit IFMAF): a `use core::arch::<arch>::X;` item is deleted (name X then resolves to the template's shim);
+/// a RENAMING import `use core::arch::<arch>::X as Y;` becomes `use crate::X as Y;`, so that Y is bound to the shim OF X (not to
+/// whatever the template happens to call Y). Anything else (globs, groups) is refused.
+fn r8_arch_use(cx: &mut Ctx, us_s: usize, us_e: usize, t: &str) {
+    if let Some((path, alias)) = t.trim_end_matches(';').trim().rsplit_once(" as ") {
+        let x = path.rsplit("::").next().unwrap_or("").trim().to_string();
+        let y = alias.trim().to_string();
+        let ok = |s: &str| !s.is_empty() && s.chars().all(|c| c.is_alphanumeric() || c == '_');
+        if !ok(&x) || !ok(&y) || t.contains('{') {
+            die(&format!("R8: unsupported renaming `use` at {}:{}", cx.f.rel, cx.f.line_of(us_s)));
+        }
+        cx.edit(us_s, us_e, format!("use crate::{} as {};", x, y), 0, "R8-arch-use-rename");
+    } else {
+        cx.edit(us_s, us_e, String::new(), 0, "R8-arch-use"); // unchanged behaviour (names keep their spelling)
+    }
+}
+
 /// process one function (signature decoration + body rewriting). `d` is its directive.
 fn process_fn(cx: &mut Ctx, sig: &syn::Signature, block: &Block, d: &FnDirective, fn_path: &str) {
+    // R8 (opt-in `//@ allow-unsafe`, added for unit IFMAF): `unsafe fn f` -> `fn f` (its callers' `unsafe { }` blocks are dropped by R8 as
+    // well), and `use core::arch::..::X;` items directly in the fn body are treated like those inside an unsafe block.
+    if d.allow_unsafe {
+        if let Some(u) = &sig.unsafety {
+            let (s, e) = cx.f.range(u.span());
+            cx.edit(s, e, String::new(), 0, "R8-unsafe-fn");
+        }
+        for st in &block.stmts {
+            if let Stmt::Item(Item::Use(us)) = st {
+                let (us_s, us_e) = cx.f.range(us.span());
+                let t = norm_ws(&cx.f.text[us_s..us_e]);
+                if t.starts_with("use core::arch::") {
+                    r8_arch_use(cx, us_s, us_e, &t);
+                }
+            }
+        }
+    }
     // reference-typed parameters (for R4)
     let mut refs: Vec<String> = d.refvars.clone();
     for inp in &sig.inputs {
@@ -879,6 +1028,9 @@ fn process_fn(cx: &mut Ctx, sig: &syn::Signature, block: &Block, d: &FnDirective
         let_as_done: vec![false; d.let_as.len()],
         let_as_hits: vec![0; d.let_as.len()],
         map_fold_done: false,
+        collect_no: 0,
+        map_collect_done: vec![false; d.map_collect.len()],
+        fold_loop_done: false,
         fn_path: fn_path.to_string(),
     };
     v.visit_block(block);
@@ -905,6 +1057,14 @@ fn process_fn(cx: &mut Ctx, sig: &syn::Signature, block: &Block, d: &FnDirective
     }
     if d.map_fold.is_some() && !v.map_fold_done {
         die(&format!("lost map-fold-loop in {}", fn_path));
+    }
+    for (k, mc) in d.map_collect.iter().enumerate() {
+        if !v.map_collect_done[k] {
+            die(&format!("lost map-collect-loop #{} in {}", mc.nth, fn_path));
+        }
+    }
+    if d.fold_loop.is_some() && !v.fold_loop_done {
+        die(&format!("lost fold-loop in {}", fn_path));
     }
     for n in d.loops.keys() {
         if !v.loops_done.contains(n) {
@@ -1271,6 +1431,73 @@ fn find_in_items<'x>(items: &'x [Item], path: &[String], f: &SrcFile) -> Vec<&'x
                 if let Some((_, its)) = &m.content {
                     out.extend(find_in_items(its, &path[1..], f));
                 }
+            } else if let Item::Fn(x) = it {
+                // R23: item statements nested in the body of a free fn (`fn f :: struct S`)
+                out.extend(find_in_stmt_items(&x.block, &path[1..], f));
+            }
+        }
+        // R23: `impl T :: fn f :: struct S` — item statements nested in the body of a method of an inherent impl of T
+        if kind == "impl" && path.len() >= 3 {
+            if let Item::Impl(im) = it {
+                if im.trait_.is_none() && norm_sel(f.slice(im.self_ty.span())) == norm_sel(name) {
+                    let want = path[1].trim();
+                    for ii in &im.items {
+                        if let ImplItem::Fn(x) = ii {
+                            if want == format!("fn {}", x.sig.ident) {
+                                out.extend(find_in_stmt_items(&x.block, &path[2..], f));
+                            }
+                        }
+                    }
+                }
+            }
+        }
+    }
+    out
+}
+
+/// R23: the item statements (`struct` / `enum` / `impl` / `fn` / ..) directly inside a fn body, searched like module items
+fn find_in_stmt_items<'x>(b: &'x Block, path: &[String], f: &SrcFile) -> Vec<&'x Item> {
+    let mut out = vec![];
+    for st in &b.stmts {
+        if let Stmt::Item(it) = st {
+            out.extend(find_in_items(std::slice::from_ref(it), path, f));
+        }
+    }
+    out
+}
+
+/// R23: all item statements directly inside the body of the fn named by `spec` = `impl T :: fn f` or `fn f`
+fn nested_items_of<'x>(items: &'x [Item], spec: &str, f: &SrcFile) -> Vec<&'x Item> {
+    let parts: Vec<String> = spec.split(" :: ").map(|x| x.trim().to_string()).collect();
+    let mut out = vec![];
+    let mut blocks: Vec<&'x Block> = vec![];
+    fn walk<'x>(items: &'x [Item], parts: &[String], f: &SrcFile, blocks: &mut Vec<&'x Block>) {
+        for it in items {
+            match it {
+                Item::Mod(m) => {
+                    if let Some((_, its)) = &m.content {
+                        walk(its, parts, f, blocks);
+                    }
+                }
+                Item::Fn(x) if parts.len() == 1 && parts[0] == format!("fn {}", x.sig.ident) => blocks.push(&x.block),
+                Item::Impl(im) if parts.len() == 2 && im.trait_.is_none() && parts[0].starts_with("impl ") && norm_sel(f.slice(im.self_ty.span())) == norm_sel(&parts[0][5..]) => {
+                    for ii in &im.items {
+                        if let ImplItem::Fn(x) = ii {
+                            if parts[1] == format!("fn {}", x.sig.ident) {
+                                blocks.push(&x.block);
+                            }
+                        }
+                    }
+                }
+                _ => {}
+            }
+        }
+    }
+    walk(items, &parts, f, &mut blocks);
+    for b in blocks {
+        for st in &b.stmts {
+            if let Stmt::Item(it) = st {
+                out.push(it);
             }
         }
     }
@@ -1620,7 +1847,16 @@ fn main() {
                 }
                 let f = &files[&imd.file];
                 let mut impls = vec![];
-                find_impls(&f.ast.items, &imd.selector, &cfg, f, &mut impls);
+                match &imd.in_fn {
+                    // R23 (`//@in-fn impl T :: fn f`): the impl block is an item statement inside the body of that fn
+                    Some(spec) => {
+                        for it in nested_items_of(&f.ast.items, spec, f) {
+                            find_impls(std::slice::from_ref(it), &imd.selector, &cfg, f, &mut impls);
+                        }
+                        *rule_counts.entry("R23-hoist-items".to_string()).or_default() += 1;
+                    }
+                    None => find_impls(&f.ast.items, &imd.selector, &cfg, f, &mut impls),
+                }
                 if impls.is_empty() {
                     die(&format!("impl not found: {} :: {}", imd.file, imd.selector));
                 }
